@@ -390,7 +390,7 @@ func sortStrings(a []string) {
 // ---- entries -----------------------------------------------------------------------------------
 
 type c19Entry struct {
-	kind string // root | container | list
+	kind string // root | container | list | row (a list entry)
 	path string
 	s    *tree.SNode
 	data *tree.Cont // content at the entry, or the holder of the list
@@ -412,8 +412,13 @@ func c19PickEntry(r *gen.Rng, root *tree.SNode, data *tree.Cont) c19Entry {
 					opts = append(opts, c19Entry{kind: "container", path: join(cur.path, kid.Name), s: kid, data: sub})
 				}
 			case tree.KList:
-				if _, ok := cur.data.Lists[kid.Name]; ok {
+				if l, ok := cur.data.Lists[kid.Name]; ok {
 					opts = append(opts, c19Entry{kind: "list", path: join(cur.path, kid.Name), s: kid, data: cur.data})
+					for _, row := range l.Rows {
+						if kp, ok := keyPath(kid, row); ok {
+							opts = append(opts, c19Entry{kind: "row", path: join(cur.path, kid.Name+"="+kp), s: kid, data: row})
+						}
+					}
 				}
 			}
 		}
@@ -421,7 +426,7 @@ func c19PickEntry(r *gen.Rng, root *tree.SNode, data *tree.Cont) c19Entry {
 			break
 		}
 		cur = gen.Pick(r, opts)
-		if cur.kind == "list" || r.Chance(1, 2) {
+		if cur.kind == "list" || cur.kind == "row" || r.Chance(1, 2) {
 			break
 		}
 	}
@@ -476,6 +481,19 @@ func c19ReadBack(m *meta.Module, root *tree.SNode, e c19Entry, doc string) (term
 		parts := strings.Split(e.path, "/")
 		s := root
 		for i, p := range parts {
+			if eq := strings.Index(p, "="); eq >= 0 {
+				// a list entry: the target entry exists with its key leaves (it has to, to be selected)
+				p = p[:eq]
+				kid := s.Kids[s.KidIndex(p)]
+				row := tree.NewCont()
+				for _, k := range kid.Keys {
+					row.Leaves[kid.Kids[k].Name] = e.data.Leaves[kid.Kids[k].Name]
+				}
+				cur.Lists[p] = &tree.List{Rows: []*tree.Cont{row}}
+				cur = row
+				s = kid
+				continue
+			}
 			kid := s.Kids[s.KidIndex(p)]
 			if i == len(parts)-1 && kid.Kind == tree.KList {
 				cur.Lists[p] = &tree.List{}
@@ -528,7 +546,7 @@ func c19Doc(ctx *core.Ctx, r *gen.Rng, yang string, m *meta.Module, root *tree.S
 	if e.path != "" {
 		var err error
 		if sel, err = sel.Find(e.path); err != nil || sel == nil {
-			panic(fmt.Sprintf("c19: cannot find entry %q: %v", e.path, err))
+			panic(fmt.Sprintf("c19: cannot find entry %q: %v\n%s\n%s", e.path, err, yang, data.Desc(root)))
 		}
 	}
 	doc, werr, panicked := c19Write(cfg, sel)
@@ -559,7 +577,11 @@ func c19Doc(ctx *core.Ctx, r *gen.Rng, yang string, m *meta.Module, root *tree.S
 			permDescs = append(permDescs, map[string]string{"document": b.String(), "read_back": pd})
 		}
 	}
-	term := emit.App("CDoc", nssTerm(root), e.s.Term(), e.dataTerm(), emit.Nat(cfg), wrote, emit.Bool(wf), back, emit.List(perms))
+	ctor := "CDoc"
+	if e.kind == "row" {
+		ctor = "CRow" // the schema term is the list's; Coq takes its entry node
+	}
+	term := emit.App(ctor, nssTerm(root), e.s.Term(), e.dataTerm(), emit.Nat(cfg), wrote, emit.Bool(wf), back, emit.List(perms))
 	desc := map[string]interface{}{"yang": yang, "entry": e.kind, "path": e.path, "writer": c19CfgNames[cfg], "data": e.dataDesc(),
 		"written": doc, "write_error": fmt.Sprint(werr) + panicked, "well_formed_single_root": wf, "read_back": backDesc, "interleavings": permDescs}
 	size := 0
@@ -666,7 +688,7 @@ func c19Escapes(ctx *core.Ctx, r *gen.Rng, n int) {
 // C19: XML export and import are inverse on every data tree.
 func C19(ctx *core.Ctx) error {
 	ctx.Imports = "Val.Model Tree.Schema Tree.Editor Tree.XmlEsc Tree.XmlW Tree.XmlR Check.C19Check"
-	ctx.Rule = "CDoc = generated schema (containers, keyed lists, leaf-lists, 12 leaf types, defaults; one in four with choices, also nested in cases) or the hand-written pair of modules (uses + augment across two namespaces, binary/empty/leafref/int8/boolean) x conforming data whose strings carry markup characters, quotes, ]]>, every white-space class at the edges and inside, non-ASCII (and, rarely, characters XML cannot carry) x selection (module, container, list) x writer configuration (WriteXMLDoc, WriteXML, XMLWtr{EnumAsIds}) x 2 (XMLWtr2) or 1 (streaming writer) random sibling interleavings of the written document read back; CEsc/CUnesc = random byte strings through patch/xml EscapeText and the decoder; distinct by SHA-256 of the case term; non-trivial = the selection holds data / the text is non-empty"
+	ctx.Rule = "CDoc = generated schema (containers, keyed lists, leaf-lists, 12 leaf types, defaults; one in four with choices, also nested in cases) or the hand-written pair of modules (uses + augment across two namespaces, binary/empty/leafref/int8/boolean) x conforming data whose strings carry markup characters, quotes, ]]>, every white-space class at the edges and inside, non-ASCII (and, rarely, characters XML cannot carry) x selection (module, container, list, list entry) x writer configuration (WriteXMLDoc, WriteXML, XMLWtr{EnumAsIds}) x 2 (XMLWtr2) or 1 (streaming writer) random sibling interleavings of the written document read back; CEsc/CUnesc = random byte strings through patch/xml EscapeText and the decoder; distinct by SHA-256 of the case term; non-trivial = the selection holds data / the text is non-empty"
 	ctx.ShardMax = 160000
 	r := gen.New(ctx.Seed)
 	nTrees := ctx.Scale(200, 3000)
@@ -707,6 +729,15 @@ func C19(ctx *core.Ctx) error {
 		}
 		spice(tr, root, data, invalidPct)
 		e := c19PickEntry(tr, root, data)
+		if e.path != "" {
+			// Selection.Find is not this property's subject (C08): where it does not reach the entry
+			// (e.g. a keyed path segment below nested choices) the module itself is the selection
+			sel, ferr := node.NewBrowser(m, data.Node(root, nil, "")).Root().Find(e.path)
+			if ferr != nil || sel == nil {
+				ctx.Count("entry:find-failed-fallback-to-root:" + e.kind)
+				e = c19Entry{kind: "root", s: root, data: data}
+			}
+		}
 		cfgs := []int{0, 1}
 		if n%4 == 1 {
 			cfgs = []int{0, 2}
